@@ -83,7 +83,7 @@ Proof.
     + simpl in H. unfold Debug.pre_op in P.
       destruct h as [|nb]; [discriminate|].
       destruct (should_break bps nb (ip s) (ops s)); [|discriminate].
-      destruct (banner ww sg (m s) (ip s)) as [a|[f j]]; [inversion P; subst; discriminate|].
+      destruct (banner ww sg (m s) (ip s)) as [f j].
       destruct (query ww sg (m s) tbl script) as [[[act eof] evs0] rest0].
       destruct (apply_action act (ops s)); [discriminate|].
       inversion P; subst. destruct eof; discriminate.
@@ -102,7 +102,7 @@ Proof.
     + simpl. unfold Debug.pre_op in P.
       destruct h as [|nb]; [discriminate|].
       destruct (should_break bps nb (ip s) (ops s)); [|discriminate].
-      destruct (banner ww sg (m s) (ip s)) as [a|[f j]]; [inversion P; subst; discriminate|].
+      destruct (banner ww sg (m s) (ip s)) as [f j].
       destruct (query ww sg (m s) tbl script) as [[[act eof] evs0] rest0] eqn:Q.
       destruct (query_no_quit _ _ _ _ _ _ _ _ _ Q NQ) as [_ E].
       destruct act; simpl in P; try discriminate.
@@ -110,7 +110,7 @@ Proof.
     + assert (NR : no_quit rest = true).
       { unfold Debug.pre_op in P. destruct h as [|nb]; [inversion P; subst; auto|].
         destruct (should_break bps nb (ip s) (ops s)); [|inversion P; subst; auto].
-        destruct (banner ww sg (m s) (ip s)) as [a|[f j]]; [discriminate|].
+        destruct (banner ww sg (m s) (ip s)) as [f j].
         destruct (query ww sg (m s) tbl script) as [[[act eof] evs0] rest0] eqn:Q.
         destruct (query_no_quit _ _ _ _ _ _ _ _ _ Q NQ) as [R _].
         destruct (apply_action act (ops s)); inversion P; subst; auto. }
@@ -119,21 +119,20 @@ Proof.
       * simpl. discriminate.
 Qed.
 
-Lemma dcause_cases (d : dcause) : (exists c, d = DM c) \/ d = DQuit \/ d = DEof \/ exists a, d = DBanner a.
+Lemma dcause_cases (d : dcause) : (exists c, d = DM c) \/ d = DQuit \/ d = DEof.
 Proof. destruct d; eauto. Qed.
 
 Theorem transparent fuel m0 input script :
   let r := debug_run ww sg bps tbl fuel m0 input script in
-  no_quit script = true -> ran_dry r = false -> pause_words_valid r = true ->
+  no_quit script = true -> ran_dry r = false ->
   dobs r = Some (mobs (run ww sg fuel (init m0 input))) /\ d_st r = snd (run ww sg fuel (init m0 input)).
 Proof.
-  intros r NQ ND PV. unfold debug_run in r.
-  destruct (dcause_cases (d_cause r)) as [[c E]|[E|[E|[a E]]]].
+  intros r NQ ND. unfold debug_run in r.
+  destruct (dcause_cases (d_cause r)) as [[c E]|[E|E]].
   - pose proof (drun_transparent _ _ _ _ _ E) as T. fold r in T. rewrite T.
     unfold dobs, mobs. rewrite E. simpl. auto.
   - exfalso. exact (drun_no_quit _ _ _ _ NQ E).
   - unfold ran_dry in ND. rewrite E in ND. discriminate.
-  - unfold pause_words_valid in PV. rewrite E in PV. discriminate.
 Qed.
 
 (* ---------- pauses ---------- *)
@@ -141,21 +140,19 @@ Definition expected (h : hstate) (tr : list (N * N)) (acts : list action) : list
   match h with HGone => [] | HAlive nb => expected_pauses bps tr nb acts end.
 
 Lemma pauses_exact : forall k s h script,
-  pause_words_valid (drun k s h script) = true ->
   pauses (d_events (drun k s h script)) = expected h (trace ww sg k s) (actions_of script).
 Proof.
-  induction k as [|k IH]; intros s h script PV.
+  induction k as [|k IH]; intros s h script.
   - simpl. destruct h; reflexivity.
   - simpl in *. unfold Debug.pre_op.
-    unfold Debug.pre_op in PV.
     destruct h as [|nb].
     + (* handler gone *)
       destruct (step ww sg s) as [s'|[c' s']]; simpl; [|reflexivity].
-      rewrite ?prepend_events. simpl. unfold pause_words_valid in PV. rewrite ?prepend_cause in PV.
-      apply (IH s' HGone script PV).
+      rewrite ?prepend_events. simpl. idtac.
+      apply (IH s' HGone script).
     + simpl. unfold should_break in *.
       destruct ((match nb with Some x => x =? ops s | None => false end) || existsb (N.eqb (ip s)) bps) eqn:SB.
-      * destruct (banner ww sg (m s) (ip s)) as [a|[f j]]; [discriminate PV|].
+      * destruct (banner ww sg (m s) (ip s)) as [f j].
         destruct (query ww sg (m s) tbl script) as [[[act eof] evs0] rest0] eqn:Q.
         destruct (query_actions _ _ _ _ _ _ _ _ _ Q) as (QA & QE & QP).
         rewrite QA.
@@ -164,32 +161,32 @@ Proof.
            destruct eof; [destruct (QE eq_refl); discriminate|].
            destruct (step ww sg s) as [s'|[c' s']]; simpl.
            ++ rewrite !pauses_app, QP. simpl. f_equal.
-              unfold pause_words_valid in PV. rewrite ?prepend_cause in PV.
-              apply (IH s' (HAlive (Some (ops s + 1))) rest0 PV).
+              idtac.
+              apply (IH s' (HAlive (Some (ops s + 1))) rest0).
            ++ rewrite !pauses_app, QP. simpl. reflexivity.
         -- destruct eof; [destruct (QE eq_refl); discriminate|].
            destruct (step ww sg s) as [s'|[c' s']]; simpl.
            ++ rewrite !pauses_app, QP. simpl. f_equal.
-              unfold pause_words_valid in PV. rewrite ?prepend_cause in PV.
-              apply (IH s' (HAlive (Some (ops s + n))) rest0 PV).
+              idtac.
+              apply (IH s' (HAlive (Some (ops s + n))) rest0).
            ++ rewrite !pauses_app, QP. simpl. reflexivity.
         -- destruct eof; [destruct (QE eq_refl); discriminate|].
            destruct (step ww sg s) as [s'|[c' s']]; simpl.
            ++ rewrite !pauses_app, QP. simpl. f_equal.
-              unfold pause_words_valid in PV. rewrite ?prepend_cause in PV.
-              apply (IH s' (HAlive None) rest0 PV).
+              idtac.
+              apply (IH s' (HAlive None) rest0).
            ++ rewrite !pauses_app, QP. simpl. reflexivity.
         -- destruct eof; [destruct (QE eq_refl); discriminate|].
            destruct (step ww sg s) as [s'|[c' s']]; simpl.
            ++ rewrite !pauses_app, QP. simpl. f_equal.
-              unfold pause_words_valid in PV. rewrite ?prepend_cause in PV.
-              apply (IH s' HGone rest0 PV).
+              idtac.
+              apply (IH s' HGone rest0).
            ++ rewrite !pauses_app, QP. simpl. reflexivity.
         -- (* exit *)
            rewrite !pauses_app, QP. simpl. destruct eof; reflexivity.
       * destruct (step ww sg s) as [s'|[c' s']]; simpl; [|reflexivity].
-        unfold pause_words_valid in PV. rewrite ?prepend_cause in PV.
-        apply (IH s' (HAlive nb) script PV).
+        idtac.
+        apply (IH s' (HAlive nb) script).
 Qed.
 
 (* ---------- quit / end of input ---------- *)
@@ -206,7 +203,7 @@ Proof.
       split; [lia|].
       unfold Debug.pre_op in P. destruct h as [|nb]; [discriminate|].
       destruct (should_break bps nb (ip s) (ops s)); [|discriminate].
-      destruct (banner ww sg (m s) (ip s)) as [a|[f j]]; [inversion P; subst; destruct H; discriminate|].
+      destruct (banner ww sg (m s) (ip s)) as [f j].
       destruct (query ww sg (m s) tbl script) as [[[act eof] evs0] rest0].
       destruct act; simpl in P; try discriminate. inversion P; subst.
       exists (EvPause (existsb (N.eqb (ip s)) bps) (ip s) (ops s) f j :: evs0). reflexivity.
@@ -234,18 +231,16 @@ Qed.
 
 Lemma drun_inert : forall k s h sc1 sc2,
   actions_of sc1 = actions_of sc2 ->
-  pause_words_valid (drun k s h sc1) = pause_words_valid (drun k s h sc2) /\
   d_cause (drun k s h sc1) = d_cause (drun k s h sc2) /\ d_st (drun k s h sc1) = d_st (drun k s h sc2) /\
   pauses (d_events (drun k s h sc1)) = pauses (d_events (drun k s h sc2)).
 Proof.
   induction k as [|k IH]; intros s h sc1 sc2 E.
   - simpl. auto.
   - simpl. unfold Debug.pre_op. destruct h as [|nb].
-    + destruct (step ww sg s) as [s'|[c' s']]; simpl; auto.
-      unfold pause_words_valid. rewrite ?prepend_cause, ?prepend_st, ?prepend_events. simpl.
-      apply (IH s' HGone sc1 sc2 E).
+    + destruct (step ww sg s) as [s'|[c' s']]; simpl; auto;
+        rewrite ?prepend_cause, ?prepend_st, ?prepend_events; simpl; apply (IH s' HGone sc1 sc2 E).
     + destruct (should_break bps nb (ip s) (ops s)).
-      * destruct (banner ww sg (m s) (ip s)) as [a|[f j]]; [simpl; auto|].
+      * destruct (banner ww sg (m s) (ip s)) as [f j].
         destruct (query ww sg (m s) tbl sc1) as [[[a1 e1] v1] r1] eqn:Q1.
         destruct (query ww sg (m s) tbl sc2) as [[[a2 e2] v2] r2] eqn:Q2.
         destruct (actions_inj_query _ _ _ _ _ _ _ _ _ _ _ _ Q1 Q2 E) as (-> & -> & ER).
@@ -253,15 +248,14 @@ Proof.
         destruct (query_actions _ _ _ _ _ _ _ _ _ Q2) as (_ & _ & P2).
         destruct (apply_action a2 (ops s)) as [h'|].
         -- destruct (step ww sg s) as [s'|[c' s']]; simpl.
-           ++ unfold pause_words_valid. rewrite ?prepend_cause, ?prepend_st, ?prepend_events.
+           ++ rewrite ?prepend_cause, ?prepend_st, ?prepend_events.
               simpl. rewrite !pauses_app, P1, P2. simpl.
-              destruct (IH s' h' r1 r2 ER) as (I0 & I1 & I2 & I3).
-              unfold pause_words_valid in I0. rewrite I0, I1, I2, I3. auto.
+              destruct (IH s' h' r1 r2 ER) as (I1 & I2 & I3).
+              rewrite I1, I2, I3. auto.
            ++ rewrite !pauses_app, P1, P2. auto.
         -- simpl. rewrite !pauses_app, P1, P2. auto.
-      * destruct (step ww sg s) as [s'|[c' s']]; simpl; auto.
-        unfold pause_words_valid. rewrite ?prepend_cause, ?prepend_st, ?prepend_events. simpl.
-        apply (IH s' (HAlive nb) sc1 sc2 E).
+      * destruct (step ww sg s) as [s'|[c' s']]; simpl; auto;
+          rewrite ?prepend_cause, ?prepend_st, ?prepend_events; simpl; apply (IH s' (HAlive nb) sc1 sc2 E).
 Qed.
 
 End Run.
@@ -269,7 +263,6 @@ End Run.
 (* ---------- the statements for a whole debugged run (Properties/C15.v) ---------- *)
 Lemma pauses_debug_run ww sg bps tbl fuel m0 input script :
   let r := debug_run ww sg bps tbl fuel m0 input script in
-  pause_words_valid r = true ->
   pauses (d_events r) = expected_pauses bps (trace ww sg fuel (init m0 input)) None (actions_of script).
 Proof. exact (pauses_exact ww sg bps tbl fuel _ (HAlive None) script). Qed.
 
@@ -293,7 +286,7 @@ Lemma reads_inert ww sg bps tbl fuel m0 input sc1 sc2 :
   let r1 := debug_run ww sg bps tbl fuel m0 input sc1 in
   let r2 := debug_run ww sg bps tbl fuel m0 input sc2 in
   d_cause r1 = d_cause r2 /\ d_st r1 = d_st r2 /\ pauses (d_events r1) = pauses (d_events r2).
-Proof. intros E. exact (proj2 (drun_inert ww sg bps tbl fuel _ _ sc1 sc2 E)). Qed.
+Proof. intros E. exact (drun_inert ww sg bps tbl fuel _ _ sc1 sc2 E). Qed.
 
 (* ---------- reads report the true current value ---------- *)
 Section Reads.
